@@ -1,7 +1,7 @@
 (* C13 — each link has its own identity; calls and failures never cross links.
    Model: Registry.v, the product of per-link endpoints; a step of one link is a step of that
    component only.  What the links share (closure table, remotes table) is keyed by fresh ids. *)
-From Verif Require Import Base Link LinkInvH Registry RegistryProofs.
+From Verif Require Import Base Link LinkInvH Registry RegistryProofs LinkInvR LinkInvQ Pair PairProofs Hub HubProofs.
 
 Theorem link_isolation :
   forall v callss rs k c b rs' j,
@@ -59,3 +59,50 @@ Proof.
     vm_compute. reflexivity.
   - reflexivity.
 Qed.
+
+(* ---- end to end: the hub as a product of two-endpoint systems (Hub.v): every link of the registry
+   with its own peer and its own network ---- *)
+
+(* a step of link k (of the hub's endpoint, of its peer, or of the network between them) changes
+   nothing of any other link or its peer: failure or cancellation of one link cannot affect calls in
+   flight on the others *)
+Theorem other_links_untouched :
+  forall fns callsAs callsBs hs k a hs' j,
+    hstep fns callsAs callsBs hs k a = Some hs' -> j <> k -> nth_error hs' j = nth_error hs j.
+Proof. exact hstep_frame. Qed.
+Print Assumptions other_links_untouched.
+
+(* what a call made through the remote of link k returns as coming from the peer is the result of an
+   invocation made by peer k, of the function that call named, with that call's own argument *)
+Theorem call_answered_by_own_links_peer :
+  forall fns callsAs callsBs n hs k p i v r oe,
+    hreachable fns callsAs callsBs n hs -> nth_error hs k = Some p ->
+    In (EvReturn i v r) (evs (pa p)) -> genuine r = Some oe ->
+    exists m x,
+      nth_error (dreq p) m = Some i /\
+      In (EvInvoked m (fns k i) (c_arg (nth i (nth k callsAs []) dflt_call))) (evs (pb p)) /\
+      handler_result (fns k i) (c_arg (nth i (nth k callsAs []) dflt_call)) = Some (x, oe) /\
+      v = (if nres1 (nth k callsAs []) i then zero else x).
+Proof. exact hub_call_answered_by_own_peer_lemma. Qed.
+Print Assumptions call_answered_by_own_links_peer.
+
+(* a peer invokes functions only for request frames written on its own link (never for a call made
+   through another link's remote), once per accepted frame *)
+Theorem peer_serves_only_its_own_link :
+  forall fns callsAs callsBs n hs j p,
+    hreachable fns callsAs callsBs n hs -> nth_error hs j = Some p ->
+    (forall m f arg, In (EvInvoked m f arg) (evs (pb p)) ->
+       exists i, nth_error (dreq p) m = Some i /\ f = fns j i /\ arg = c_arg (nth i (nth j callsAs []) dflt_call) /\
+                 In (EvReqWritten i arg (c_closure (nth i (nth j callsAs []) dflt_call))) (evs (pa p))) /\
+    NoDup (inv_ids (evs (pb p))) /\ NoDup (res_ids (evs (pb p))).
+Proof. exact hub_peer_serves_own_link_lemma. Qed.
+Print Assumptions peer_serves_only_its_own_link.
+
+(* non-vacuity: link 0 fails while a call on link 1 is in flight; that call completes with the
+   result of its own peer; the call on link 0 fails *)
+Theorem one_link_fails_the_other_completes :
+  exists p0 p1, hrun hb_fns hb_callsAs [] (hinit 2) hb_sched = Some [p0; p1] /\
+    fatal (pa p0) = Some (EInj 9%N) /\ In (EvReturn 0 zero (Some EClosed)) (evs (pa p0)) /\
+    fatal (pa p1) = None /\ bclosed (pa p1) = false /\ In (EvReturn 0 21%N (Some (EApp 4%N))) (evs (pa p1)).
+Proof. exact hub_example. Qed.
+Print Assumptions one_link_fails_the_other_completes.
